@@ -564,3 +564,51 @@ Definition add_class (h : list classdef) (T : list (ctab * ptab)) (k : nat) (n :
                                 then match add_class1 true t n p with Some x => x | None => t end
                                 else t) 0 T, Done)
   end.
+
+(* ================================================================== *)
+(* Fourth wave of seeded changes (C13-u1, u2, u3).  Appended; nothing above is changed. *)
+
+(* C13-u1.  A trait definition that went through CTrait.__getstate__ / __setstate__ (copy.copy,
+   copy.deepcopy, pickle; ctraits.c _trait_getstate / _trait_setstate restore the getattr,
+   setattr, post_setattr and validate handlers from their table indices) is the same definition:
+   installed with add_trait / add_class_trait it governs exactly like the original. *)
+Definition round_trip (p : policy) : policy := p.
+
+(* C13-u3.  DelegatesTo(delegate, prefix = target) with modify semantics, one link: getattr_delegate
+   reads getattr(delegate, target); setattr_delegate (ctraits.c) looks the target name up on the
+   DELEGATE — instance trait, class trait, get_prefix_trait(delegate, target, 1) — and runs that
+   trait's setattr on the delegate.  So an access made through attribute [a] of the delegating object
+   is the access of [target] on the delegate object, governed by the delegate's rules; the histories
+   of these cases are histories of the delegate object (the delegating object holds nothing). *)
+Definition via_get (a target : name) : op := OGet target.
+Definition via_set (a target : name) (v : Z) : op := OSet target v.
+Definition via_del (a target : name) : op := ODel target.
+
+(* C13-u2.  on_trait_change(handler, name) / on_trait_change(handler, name, remove=True)
+   (has_traits.py _on_trait_change l.2195-2268).  Attaching calls self._trait(name, 2) (ctraits.c
+   get_trait l.904-): the instance trait if there is one; else the class trait, resolving and caching a
+   prefix trait with is_set = 0 if need be; a CLONE of it becomes the instance trait of the name (same
+   handlers, i.e. the same policy) and carries the notifier.  Detaching calls self._trait(name, 1)
+   and only edits the notifier list.  Neither changes which policy governs any name. *)
+Inductive nop := NOp (o : op) | NListen (n : name) | NUnlisten (n : name).
+
+Definition listen (pt : ptab) (s : state) (n : name) : state * obs :=
+  match assoc n (s_itd s) with
+  | Some _ => out s n Done
+  | None =>
+      match assoc n (s_ctd s) with
+      | Some p => out (mkState (s_ctd s) (aset n p (s_itd s)) (s_od s)) n Done
+      | None =>
+          match prefix_trait pt s n false with
+          | inl (p, s') => out (mkState (s_ctd s') (aset n p (s_itd s')) (s_od s')) n Done
+          | inr e => out s n (Raise e)
+          end
+      end
+  end.
+
+Definition step_n (pt : ptab) (s : state) (x : nop) : state * obs :=
+  match x with
+  | NOp o => step pt s o
+  | NListen n => listen pt s n
+  | NUnlisten n => out s n Done
+  end.
